@@ -9,6 +9,7 @@ import (
 	"fmt"
 	"go/ast"
 	"go/token"
+	"go/types"
 	"strings"
 )
 
@@ -66,6 +67,32 @@ func mentions(e ast.Node, name string) bool {
 	return found
 }
 
+// stepChain renders a piecewise-constant function of `v` (sampled at the ascending points xs, values vals[i] named by
+// name()) as `if (v >=? b_k) then n_k else if (v >=? b_{k-1}) then ... else n_0`, highest boundary first.
+type stepSeg struct {
+	from int64 // first sampled point of the segment
+	val  string
+}
+
+func stepSegments(xs []int64, vals []string) []stepSeg {
+	var segs []stepSeg
+	for i, x := range xs {
+		if i == 0 || vals[i] != vals[i-1] {
+			segs = append(segs, stepSeg{x, vals[i]})
+		}
+	}
+	return segs
+}
+
+func stepChain(v string, segs []stepSeg, name func(string) string) string {
+	var sb strings.Builder
+	for i := len(segs) - 1; i >= 1; i-- {
+		fmt.Fprintf(&sb, "if (%s >=? %d) then %s else ", v, segs[i].from, name(segs[i].val))
+	}
+	sb.WriteString(name(segs[0].val))
+	return sb.String()
+}
+
 func init() {
 	generators = append(generators, func() {
 		p := loadPkg("internal/analyzer")
@@ -73,50 +100,113 @@ func init() {
 			return
 		}
 		const file = "circular_detector.go"
-		var b strings.Builder
-		b.WriteString("(* from internal/analyzer/circular_detector.go *)\n")
+		const recv = "CircularDependencyDetector"
+		var b, tb strings.Builder
+		b.WriteString("(* from internal/analyzer/circular_detector.go; decision logic read by evaluation (translator/goeval.go) *)\n")
+		in := newInterp(p)
+		sevNames := []string{"CycleSeverityLow", "CycleSeverityMedium", "CycleSeverityHigh", "CycleSeverityCritical"}
 
-		// severityOrder: name -> code
-		sevCode := map[string]string{}
-		if fd := findFunc(p, file, "CircularDependencyDetector", "severityOrder"); fd != nil {
-			ast.Inspect(fd.Body, func(n ast.Node) bool {
-				cc, ok := n.(*ast.CaseClause)
-				if !ok || len(cc.List) != 1 || len(cc.Body) != 1 {
-					return true
+		// a detector over a graph whose module i (named m<i>) has the given in-degree (nil entry = module unknown to the graph)
+		detector := func(degs []*int64, components *Slice) (*Struct, *Slice) {
+			nodes := &Map{M: map[interface{}]Value{}}
+			mods := &Slice{}
+			for i, d := range degs {
+				name := fmt.Sprintf("m%02d", i)
+				mods.E = append(mods.E, name)
+				if d != nil {
+					nodes.M[name] = mkStruct("ModuleNode", "Name", name, "InDegree", *d, "Dependencies", &Map{M: map[interface{}]Value{}})
 				}
-				id, ok1 := cc.List[0].(*ast.Ident)
-				ret, ok2 := cc.Body[0].(*ast.ReturnStmt)
-				if ok1 && ok2 && len(ret.Results) == 1 {
-					if v, ok := depsExpr(ret.Results[0]); ok {
-						sevCode[id.Name] = v
-					}
-				}
-				return true
-			})
-		}
-		for _, n := range []string{"CycleSeverityLow", "CycleSeverityMedium", "CycleSeverityHigh", "CycleSeverityCritical"} {
-			if _, ok := sevCode[n]; !ok {
-				fail("severityOrder: no case for %s", n)
-				sevCode[n] = "0"
 			}
-			fmt.Fprintf(&b, "Definition circ_%s : Z := %s.\n", n, sevCode[n])
+			cdd := mkStruct(recv, "graph", mkStruct("DependencyGraph", "Nodes", nodes), "index", int64(0), "stack", nil,
+				"inStack", &Map{M: map[interface{}]Value{}}, "indices", &Map{M: map[interface{}]Value{}}, "lowLinks", &Map{M: map[interface{}]Value{}},
+				"components", components)
+			return cdd, mods
+		}
+		deg := func(d int64) *int64 { return &d }
+
+		// ---- severityOrder: constant -> code -----------------------------------------------------------
+		sevCode := map[string]int64{}   // constant name -> code
+		codeName := map[string]string{} // severity string value -> constant name
+		if fd := findFunc(p, file, recv, "severityOrder"); fd == nil {
+			fail("severityOrder: function not found")
+		} else {
+			cdd, _ := detector(nil, nil)
+			for _, n := range sevNames {
+				c, _ := p.pkg.Scope().Lookup(n).(*types.Const)
+				if c == nil {
+					fail("severityOrder: constant %s not found", n)
+					continue
+				}
+				cv, _ := constToValue(c.Val(), c.Type())
+				code, err := asInt(in.call1(p, fd, cdd, cv))
+				if err != nil {
+					fail("severityOrder: cannot be evaluated on %s: %v", n, err)
+					continue
+				}
+				sevCode[n] = code
+				if s, ok := cv.(string); ok {
+					codeName[s] = n
+				}
+			}
+		}
+		for _, n := range sevNames {
+			fmt.Fprintf(&b, "Definition circ_%s : Z := %d.\n", n, sevCode[n])
 		}
 
-		// strongConnect: the "keep this component" test on len(component)
-		if fd := findFunc(p, file, "CircularDependencyDetector", "strongConnect"); fd != nil {
-			var conds []string
-			ast.Inspect(fd.Body, func(n ast.Node) bool {
-				if is, ok := n.(*ast.IfStmt); ok && is.Init == nil && mentions(is.Cond, "len") && mentions(is.Cond, "component") {
-					if s, ok := depsExpr(is.Cond); ok {
-						conds = append(conds, s)
+		// ---- strongConnect: which component sizes are recorded (run on a ring of k modules) -------------
+		if fd := findFunc(p, file, recv, "strongConnect"); fd != nil {
+			kept := map[int64]bool{}
+			ok := true
+			for k := int64(1); k <= 6 && ok; k++ {
+				degs := make([]*int64, k)
+				for i := range degs {
+					degs[i] = deg(1)
+				}
+				cdd, mods := detector(degs, nil)
+				nodes := cdd.F["graph"].(*Struct).F["Nodes"].(*Map)
+				if k > 1 {
+					for i := int64(0); i < k; i++ {
+						nodes.M[mods.E[i]].(*Struct).F["Dependencies"].(*Map).M[mods.E[(i+1)%k]] = true
 					}
 				}
-				return true
-			})
-			if len(conds) != 1 {
-				fail("strongConnect: expected exactly one test on len(component), found %d", len(conds))
-			} else {
-				fmt.Fprintf(&b, "Definition circ_keep_component (len_component : Z) : bool := %s.\n", conds[0])
+				if _, err := in.CallFunc(p, fd, cdd, mods.E[0]); err != nil {
+					fail("strongConnect: cannot be evaluated on a ring of %d modules: %v", k, err)
+					ok = false
+					break
+				}
+				comps, _ := cdd.F["components"].(*Slice)
+				n := 0
+				if comps != nil {
+					n = len(comps.E)
+					if n == 1 {
+						if c, _ := comps.E[0].(*Slice); c == nil || int64(len(c.E)) != k {
+							fail("strongConnect: a ring of %d modules gives a component of another size", k)
+							ok = false
+						}
+					}
+				}
+				if n > 1 {
+					fail("strongConnect: a ring of %d modules gives %d components", k, n)
+					ok = false
+				}
+				kept[k] = n == 1
+			}
+			if ok {
+				first := int64(0)
+				for k := int64(1); k <= 6; k++ {
+					if kept[k] && first == 0 {
+						first = k
+					}
+					if first != 0 && !kept[k] {
+						fail("strongConnect: the component-size test is not a lower bound (size %d kept, size %d dropped)", first, k)
+						ok = false
+					}
+				}
+				if ok && first == 0 {
+					fail("strongConnect: no component of size 1..6 is recorded")
+				} else if ok {
+					fmt.Fprintf(&b, "Definition circ_keep_component (len_component : Z) : bool := (len_component >? %d).\n", first-1)
+				}
 			}
 			// operands of the two low-link updates
 			var args []string
@@ -132,102 +222,177 @@ func init() {
 			if len(args) != 2 || args[0] != want[0] || args[1] != want[1] {
 				fail("strongConnect: low-link updates no longer have the modelled operands: %v", args)
 			}
+		} else {
+			fail("strongConnect: function not found")
 		}
 
-		// processComponents: the "skip" test
-		if fd := findFunc(p, file, "CircularDependencyDetector", "processComponents"); fd != nil {
-			var conds []string
-			ast.Inspect(fd.Body, func(n ast.Node) bool {
-				if is, ok := n.(*ast.IfStmt); ok && is.Init == nil && mentions(is.Cond, "len") && mentions(is.Cond, "component") {
-					if s, ok := depsExpr(is.Cond); ok {
-						conds = append(conds, s)
-					}
-				}
-				return true
-			})
-			if len(conds) != 1 {
-				fail("processComponents: expected exactly one test on len(component), found %d", len(conds))
-			} else {
-				fmt.Fprintf(&b, "Definition circ_skip_component (len_component : Z) : bool := %s.\n", conds[0])
+		// the helpers of processComponents that do not take part in the decisions are stubbed; the sort is left out
+		in.Extern = func(c *CallCtx) ([]Value, bool) {
+			switch c.Name {
+			case "cdd.findDependencyChains":
+				return []Value{nil}, true
+			case "cdd.generateCycleDescription":
+				return []Value{""}, true
+			case "sort.Slice", "sort.SliceStable":
+				return nil, true
 			}
+			return nil, false
 		}
 
-		// assessCycleSeverity: fan-in test and the if/else-if chain on size
-		if fd := findFunc(p, file, "CircularDependencyDetector", "assessCycleSeverity"); fd != nil {
-			core := ""
-			ast.Inspect(fd.Body, func(n ast.Node) bool {
-				if is, ok := n.(*ast.IfStmt); ok && is.Init == nil && mentions(is.Cond, "InDegree") {
-					if s, ok := depsExpr(is.Cond); ok {
-						core = s
-					}
+		// ---- processComponents: which component sizes are skipped -----------------------------------------
+		if fd := findFunc(p, file, recv, "processComponents"); fd != nil {
+			skipped := map[int64]bool{}
+			ok := true
+			for k := int64(0); k <= 6 && ok; k++ {
+				degs := make([]*int64, k)
+				for i := range degs {
+					degs[i] = deg(0)
 				}
-				return true
-			})
-			if core == "" {
-				fail("assessCycleSeverity: fan-in test not found")
-			} else {
-				fmt.Fprintf(&b, "Definition circ_is_core (inDegree : Z) : bool := %s.\n", core)
+				cdd, mods := detector(degs, nil)
+				cdd.F["components"] = mkSlice(mods)
+				v, err := in.call1(p, fd, cdd)
+				if err != nil {
+					fail("processComponents: cannot be evaluated on a component of %d modules: %v", k, err)
+					ok = false
+					break
+				}
+				n := 0
+				if s, _ := v.(*Slice); s != nil {
+					n = len(s.E)
+				}
+				skipped[k] = n == 0
 			}
-			var chain strings.Builder
-			ok := false
-			for i, st := range fd.Body.List {
-				is, isIf := st.(*ast.IfStmt)
-				if !isIf || !mentions(is.Cond, "size") {
-					continue
-				}
-				ok = true
-				cur := is
-				for cur != nil {
-					c, okc := depsExpr(cur.Cond)
-					if !okc || len(cur.Body.List) != 1 {
-						ok = false
-						break
-					}
-					ret, okr := cur.Body.List[0].(*ast.ReturnStmt)
-					if !okr || len(ret.Results) != 1 {
-						ok = false
-						break
-					}
-					id, oki := ret.Results[0].(*ast.Ident)
-					if !oki || sevCode[id.Name] == "" {
-						ok = false
-						break
-					}
-					fmt.Fprintf(&chain, "if %s then circ_%s else ", c, id.Name)
-					switch e := cur.Else.(type) {
-					case *ast.IfStmt:
-						cur = e
-					case nil:
-						cur = nil
-					default:
-						ok = false
-						cur = nil
-					}
-				}
-				// trailing return
-				if ok && i+1 < len(fd.Body.List) {
-					if ret, okr := fd.Body.List[len(fd.Body.List)-1].(*ast.ReturnStmt); okr && len(ret.Results) == 1 {
-						if id, oki := ret.Results[0].(*ast.Ident); oki && sevCode[id.Name] != "" {
-							fmt.Fprintf(&chain, "circ_%s", id.Name)
-						} else {
+			if ok {
+				last := int64(-1)
+				for k := int64(0); k <= 6; k++ {
+					if skipped[k] {
+						if last != k-1 {
+							fail("processComponents: the skip test is not an upper bound on the component size")
 							ok = false
 						}
-					} else {
-						ok = false
+						last = k
 					}
-				} else {
-					ok = false
 				}
-				break
+				if ok {
+					fmt.Fprintf(&b, "Definition circ_skip_component (len_component : Z) : bool := (len_component <=? %d).\n", last)
+				}
 			}
-			if !ok {
-				fail("assessCycleSeverity: if/else-if chain on size no longer has the modelled shape")
-			} else {
-				fmt.Fprintf(&b, "Definition circ_assess (hasCore : bool) (size : Z) : Z := %s.\n", chain.String())
+		} else {
+			fail("processComponents: function not found")
+		}
+
+		// ---- assessCycleSeverity -----------------------------------------------------------------------------
+		if fd := findFunc(p, file, recv, "assessCycleSeverity"); fd != nil {
+			bad := false
+			assess := func(size int64, degs []*int64) string {
+				cdd, mods := detector(degs, nil)
+				s, err := asString(in.call1(p, fd, cdd, mkStruct("CircularDependency", "Modules", mods, "Size", size)))
+				if err != nil {
+					if !bad {
+						fail("assessCycleSeverity: cannot be evaluated: %v", err)
+					}
+					bad = true
+					return ""
+				}
+				if _, known := codeName[s]; !known && !bad {
+					fail("assessCycleSeverity: returns %q, which is not one of the CycleSeverity constants", s)
+					bad = true
+				}
+				return s
 			}
+			name := func(s string) string { return "circ_" + codeName[s] }
+			var scan []int64
+			for d := int64(-2); d <= 40; d++ {
+				scan = append(scan, d)
+			}
+			scan = append(scan, 100, 1000, 1000000)
+			// fan-in: smallest cycle size, one module of in-degree d
+			base := assess(2, []*int64{nil})
+			var coreVals []string
+			for _, d := range scan {
+				if assess(2, []*int64{deg(d)}) != base {
+					coreVals = append(coreVals, "core")
+				} else {
+					coreVals = append(coreVals, "plain")
+				}
+			}
+			coreFrom := int64(0)
+			if !bad {
+				segs := stepSegments(scan, coreVals)
+				if len(segs) == 2 && segs[0].val == "plain" {
+					coreFrom = segs[1].from
+					fmt.Fprintf(&b, "Definition circ_is_core (inDegree : Z) : bool := (inDegree >? %d).\n", coreFrom-1)
+				} else {
+					fail("assessCycleSeverity: the fan-in test is not a single lower bound on InDegree (on a 2-module cycle)")
+					bad = true
+				}
+			}
+			if !bad {
+				var plain, core []string
+				for _, s := range scan {
+					plain = append(plain, assess(s, []*int64{deg(coreFrom - 1)}))
+					core = append(core, assess(s, []*int64{deg(coreFrom)}))
+				}
+				ps, cs := stepSegments(scan, plain), stepSegments(scan, core)
+				if !bad {
+					if len(cs) == 1 && len(ps) >= 2 && ps[len(ps)-1].val == cs[0].val {
+						// `hasCore || size >= T` decides the top level, then a chain on size
+						top := ps[len(ps)-1]
+						fmt.Fprintf(&b, "Definition circ_assess (hasCore : bool) (size : Z) : Z := if (hasCore || (size >=? %d)) then %s else %s.\n",
+							top.from, name(top.val), stepChain("size", ps[:len(ps)-1], name))
+					} else {
+						fmt.Fprintf(&b, "Definition circ_assess (hasCore : bool) (size : Z) : Z := if hasCore then (%s) else (%s).\n",
+							stepChain("size", cs, name), stepChain("size", ps, name))
+					}
+				}
+				// decision table: (size, in-degrees of the modules (None = not in the graph)) -> severity code
+				var sizes []int64
+				seen := map[int64]bool{}
+				add := func(x int64) {
+					if !seen[x] {
+						seen[x] = true
+						sizes = append(sizes, x)
+					}
+				}
+				for _, x := range []int64{0, 1, 2, 50} {
+					add(x)
+				}
+				for _, sg := range append(append([]stepSeg{}, ps[1:]...), cs[1:]...) {
+					add(sg.from - 1)
+					add(sg.from)
+					add(sg.from + 1)
+				}
+				T := coreFrom
+				degLists := [][]*int64{{}, {deg(0)}, {nil}, {deg(T - 1)}, {deg(T)}, {deg(T + 1)}, {deg(0), deg(T)}, {nil, deg(T)}, {deg(T), deg(0)},
+					{deg(T - 1), deg(T - 1)}, {deg(0), nil, deg(T - 1), deg(T)}}
+				var rows []string
+				for _, s := range sizes {
+					for _, dl := range degLists {
+						r := assess(s, dl)
+						var items []string
+						for _, d := range dl {
+							if d == nil {
+								items = append(items, "None")
+							} else {
+								items = append(items, "Some "+coqZint(*d))
+							}
+						}
+						rows = append(rows, fmt.Sprintf("((%s, [%s]), %s)", coqZint(s), strings.Join(items, "; "), coqZint(sevCode[codeName[r]])))
+					}
+				}
+				if !bad {
+					emitTable(&tb, "assessCycleSeverity_table", "(Z * list (option Z)) * Z", rows)
+				}
+			}
+			if bad {
+				emitTable(&tb, "assessCycleSeverity_table", "(Z * list (option Z)) * Z", nil)
+			}
+		} else {
+			fail("assessCycleSeverity: function not found")
 		}
 
 		writeGen("DepsConst.v", b.String())
+		writeGen("DepsTables.v", tb.String())
 		for _, f := range []string{"DetectCircularDependencies", "resetState", "findStronglyConnectedComponents", "strongConnect",
 			"processComponents", "assessCycleSeverity", "calculateStatistics", "updateGraphWithCycles", "severityOrder"} {
 			recordDigest(p, file, "CircularDependencyDetector", f)
